@@ -251,13 +251,11 @@ def run (st : TState) : List (Int × Out Int) → List (Out Bool × TState)
 def runWith (nextOf : Int → Out Int) (st : TState) (arrivals : List Int) : List (Out Bool × TState) :=
   run st (arrivals.map fun a => (a, nextOf a))
 
-/-! ### the repaired algorithm (the `fix:` patch of `time.rs`)
+/-! ### the current algorithm (`time.rs` since the `fix:` commit 80d997f)
 
-`codeFixed` selects which algorithm the correspondence check runs the model of: `false` = the code
-as it is (`getNextTime`, `schedule`, `step`), `true` = the repaired code (`getNextTimeFixed`,
-`scheduleFixed`, `stepFixed`). The theorems are stated about the named functions, so they hold for
-either value of the flag. -/
-def codeFixed : Bool := true
+Everything above this line (`getNextTime`, `schedule`, `step`, `run`) models the code BEFORE that
+commit and is kept only for the historical record in `TimeTrigger/Historic.lean`. The
+correspondence check and every `C16_*` theorem use the functions below. -/
 
 /-- "never roll": 9999-12-31T23:59:59Z, returned when the schedule is not representable -/
 def FAR : Int := 253402300799
@@ -401,34 +399,57 @@ def scheduleFixed (next : Out Int) (maxDelay delay : Int) : Out Int :=
       else .ok t
     else .ok t
 
-/-- the repaired `Trigger::trigger`: a poisoned lock is recovered (`into_inner`), so a panic, if
-there were one, would not disable the trigger -/
-def stepFixed (st : TState) (now : Int) (resched : Out Int) : Out Bool × TState :=
-  match st with
-  | .poisoned => (.panic "poisoned", .poisoned)
-  | .live s =>
-    if now ≥ s then
-      match resched with
-      | .ok t => (.ok true, .live t)
-      | .err e => (.err e, .live s)
-      | .panic w => (.panic w, .live s)
-    else (.ok false, .live s)
+/-- `Trigger::trigger` of the current code. The state is the scheduled instant (a poisoned lock is
+recovered with `into_inner`, so there is no "dead" state). The clock is read TWICE: `now` decides
+whether to fire (`current >= next_roll_time`), and `TimeTrigger::new(self.config)` reads it again
+for the new schedule — `resched` is what `new` computes at that second reading. -/
+def stepFixed (s : Int) (now : Int) (resched : Out Int) : Out Bool × Int :=
+  if now ≥ s then
+    match resched with
+    | .ok t => (.ok true, t)
+    | .err e => (.err e, s)
+    | .panic w => (.panic w, s)
+  else (.ok false, s)
 
-def runFixed (st : TState) : List (Int × Out Int) → List (Out Bool × TState)
+def runFixed (s : Int) : List (Int × Out Int) → List (Out Bool × Int)
   | [] => []
   | (now, r) :: rest =>
-    let (o, st') := stepFixed st now r
-    (o, st') :: runFixed st' rest
+    let (o, s') := stepFixed s now r
+    (o, s') :: runFixed s' rest
 
-/-- `RollingFileAppender::append` with a pre-process trigger: the policy runs before the record is
-encoded, so a firing trigger closes the current file first. Files as lists of record numbers,
-oldest first; the last one is the active file. A panicking trigger loses the record. -/
-def segment (fired : List (Option Bool)) : List (List Nat) :=
-  let rec go (i : Nat) (cur : List Nat) (done : List (List Nat)) : List (Option Bool) → List (List Nat)
-    | [] => (cur.reverse :: done).reverse
-    | some true :: rest => go (i + 1) [i] (cur.reverse :: done) rest
-    | some false :: rest => go (i + 1) (i :: cur) done rest
-    | none :: rest => go (i + 1) cur done rest
-  go 1 [] [] fired
+/-- `secondReadFixed = false`: the code as it is — the reschedule is computed from the second clock
+reading; `true`: after the proposed patch `trigger` passes its own reading to the schedule
+computation (one reading per consultation). Used by the driver to choose which instant's facts feed
+the reschedule. -/
+def secondReadFixed : Bool := true
+
+/-- put record `i` at the front of the file that is currently being written -/
+def consHead (i : Nat) : List (List Nat) → List (List Nat)
+  | seg :: more => (i :: seg) :: more
+  | [] => [[i]]
+
+/-- `RollingFileAppender::append` with a pre-process trigger (`rolling_file/mod.rs`, `is_pre_process`
+branch, and `CompoundPolicy::process`): the policy runs before the record is encoded, so a firing
+trigger (followed by a successful roll) closes the current file first and the record becomes the
+first one of the new file. Files as lists of record numbers, oldest first; the last one is the
+active file. Flag of a record: `some true` fired and written, `some false` not fired and written,
+`none` not written (the trigger panicked, or it fired and the roller failed: `process` returns the
+error before the record is encoded, the old file stays in place and is reopened by the next
+record). `segmentFrom i flags`: the files produced by records `i, i+1, …`, the first list being
+the continuation of the file that was open before record `i`. -/
+def segmentFrom : Nat → List (Option Bool) → List (List Nat)
+  | _, [] => [[]]
+  | i, some true :: rest => [] :: consHead i (segmentFrom (i + 1) rest)
+  | i, some false :: rest => consHead i (segmentFrom (i + 1) rest)
+  | i, none :: rest => segmentFrom (i + 1) rest
+
+def segment (flags : List (Option Bool)) : List (List Nat) := segmentFrom 1 flags
+
+/-- what `new` computes when it resolves one local time: `resolve_after`'s answer for a local time
+that exists -/
+def resolve1 (now : Int) : LocalResult → Option Int
+  | .single t => some t
+  | .ambiguous a b => some (if a > now then a else b)
+  | .none => none
 
 end Log4rs.TimeTrigger
